@@ -21,6 +21,7 @@ import ApiFu.C02.Term
 import ApiFu.C02.Errors
 import ApiFu.C02.Required
 import ApiFu.C02.Nulls
+import ApiFu.C02.Collect
 
 namespace ApiFu.C02
 
@@ -264,6 +265,50 @@ theorem response_data_independent (rq : Request) (sched' : List Nat) (hd : Field
 theorem idle_rounds_le_promises (rq : Request) : (execute rq).2.rounds ≤ (execute rq).2.nextId := by
   obtain ⟨r, h⟩ := execute_terminates rq
   exact rounds_le_promises rq r h
+
+/-! ## From the document: the distinct-keys hypothesis discharged
+
+`Request.ofDoc d` (Collect.lean) is the plan the executor runs for a document `d`: every selection
+set is built by the transliteration of `collectFields` (fields, inline fragments, fragment spreads
+with the visited set, @skip/@include, `GroupedFieldSet.Append`) and `mergeSelectionSets`, and fused
+with the resolver outcomes keyed by field name. For such requests — all the executor can be given —
+the hypothesis `Field.distinctKeysL` of the data and no-duplicate theorems is a theorem. -/
+
+/-- **collected_keys_distinct.** The response keys of a `GroupedFieldSet` built by `collectFields`
+    are pairwise distinct, for every selection set (any nesting of fragments, any repetition of
+    keys, any skipped selections). -/
+theorem collected_keys_distinct (ss : List Sel) : (collect ss).keys.Nodup := collect_keys_nodup ss
+
+/-- **doc_plan_distinct_keys.** Every selection set of the plan of a document, at every depth, has
+    pairwise distinct response keys. -/
+theorem doc_plan_distinct_keys (d : Doc) : Field.distinctKeysL (Request.ofDoc d).fields = true := ofDoc_distinctKeys d
+
+/-- **doc_response_data_independent.** `response_data_independent` without hypothesis: for every
+    document, every resolver outcome, every async subset, every schedule and every schedule of the
+    all-synchronous counterpart, the data of both runs is `Spec.data` of the document's plan. -/
+theorem doc_response_data_independent (d : Doc) (sched' : List Nat) :
+    (run (Request.ofDoc d)).data = Spec.data (Request.ofDoc d) ∧
+    (run ((Request.ofDoc d).allSync sched')).data = Spec.data (Request.ofDoc d) :=
+  response_data_independent (Request.ofDoc d) sched' (ofDoc_distinctKeys d)
+
+/-- **doc_no_duplicate_error.** `no_duplicate_error` without hypothesis. -/
+theorem doc_no_duplicate_error (d : Doc) : (run (Request.ofDoc d)).errors.Nodup :=
+  no_duplicate_error (Request.ofDoc d) (ofDoc_distinctKeys d)
+
+/-- **doc_required_errors_eq.** `required_errors_eq` without hypothesis: every required error
+    occurs exactly once in the response and in the all-synchronous response. -/
+theorem doc_required_errors_eq (d : Doc) (sched' : List Nat) :
+    ∀ e ∈ Spec.required (Request.ofDoc d), (run (Request.ofDoc d)).errors.count e = 1 ∧
+      (run ((Request.ofDoc d).allSync sched')).errors.count e = 1 :=
+  (required_errors_eq (Request.ofDoc d) sched' (ofDoc_distinctKeys d)).2
+
+/-- Non-vacuity: `{ obj { ...F } ... { b obj { t: __typename } } } fragment F on Obj { nn }` collects to
+    the keys `obj`, `b`; the two occurrences of `obj` are merged. -/
+example : (collect [.field "obj" "obj" false [.spread false "F" true [.field "nn" "nn" false []]],
+                     .inline false true [.field "b" "b" false [],
+                                         .field "obj" "obj" false [.field "t" "__typename" false []]]]).keys
+    = ["obj", "b"] := by
+  simp [collect, collectL, collectSel, Grouped.add, Grouped.keys]
 
 /-! Non-vacuity: a request for which execution returns under a two-round schedule, with a promise
     failing beneath a non-null field inside a nullable object (the F-02a shape). -/
